@@ -21,7 +21,8 @@ EXPLANATION = ("Timestamp formatter tables. R1 (fractional seconds, exhaustive o
                "cleared before it is repopulated from the current timestamp; every Timezone enumerator sets the next point, local time "
                "on a grid that divides 15 minutes (every UTC offset in use is a multiple of 15 minutes), GMT on noon/midnight; the "
                "elapsed seconds are taken against the cached timestamp before it is overwritten; the populate step converts the same "
-               "timestamp with the conversion that matches the zone and caches hour*3600 + min*60 + sec.")
+               "timestamp with the conversion that matches the zone and caches hour*3600 + min*60 + sec."
+               ' R4g: the next rebuild point is only ever assigned a freshly computed value. R6b: every recorded position is patched, unconditionally within its case. R7: gmtime_rs / localtime_rs / timegm delegate to the libc conversion of the same kind (no libc call at all: analysis broken). R8 (= C12.R7): options equality over every member.')
 NOT_DECIDED = ("Equality with strftime for every instant, zone and sequence as values (DST shifts, historical zone offsets that are not "
                "multiples of 15 minutes, the arithmetic of the hour/minute/second patching over all elapsed times): left to dynamic "
                "techniques. R4 decides the shape of the cache's state machine, not its output.")
